@@ -151,12 +151,16 @@ def end_to_end(rng, stats, out, n):
         if not K:
             continue
         K = K.group()
-        members = TH.lru_variations(K)
+        # "whichever variation of the site was seen first": the variations are taken from the property's
+        # own notion (scheme swap, trailing www), not from the function under test
+        from ..model import variations as model_variations
+
+        members = model_variations(K)
         results = []
         anchor_mode = rng.random() < 0.6
         mem = rng.random() < 0.7
         for first in members:
-            anchors = TH.lru_variations(site)
+            anchors = model_variations(site)
             if anchor_mode:
                 # rules anchored on the bare (non-www) forms only: the www forms are reached through them
                 fewest = min(v.count(b"|h:") for v in anchors)
